@@ -1,0 +1,66 @@
+//! Verification hooks (compiled only with `--cfg quinn_rs_quinn_verif`).
+//!
+//! Each submodule interprets integer-encoded operation sequences against one real component
+//! and returns integer-encoded observations. Nothing here is compiled without the cfg flag.
+#![allow(missing_docs, dead_code, unused_imports, unreachable_pub, clippy::all)]
+
+pub(crate) mod codec;
+pub(crate) mod frames;
+pub(crate) mod header;
+pub(crate) mod tparams;
+pub(crate) mod token;
+pub(crate) mod cid_queue;
+pub(crate) mod routing;
+pub(crate) mod range_set;
+pub(crate) mod bloom;
+pub(crate) mod token_cache;
+pub(crate) mod congestion;
+pub mod constants;
+
+/// One operation = opcode followed by integer arguments.
+pub type Ops = [Vec<i128>];
+/// One observation per operation.
+pub type Outs = Vec<Vec<i128>>;
+
+pub fn run(comp: &str, ops: &Ops) -> Option<Outs> {
+    if let Some(o) = codec::run(comp, ops) {
+        return Some(o);
+    }
+    if let Some(o) = frames::run(comp, ops) {
+        return Some(o);
+    }
+    if let Some(o) = header::run(comp, ops) {
+        return Some(o);
+    }
+    if let Some(o) = tparams::run(comp, ops) {
+        return Some(o);
+    }
+    if let Some(o) = token::run(comp, ops) {
+        return Some(o);
+    }
+    if let Some(o) = cid_queue::run(comp, ops) {
+        return Some(o);
+    }
+    if let Some(o) = routing::run(comp, ops) {
+        return Some(o);
+    }
+    if let Some(o) = range_set::run(comp, ops) {
+        return Some(o);
+    }
+    if let Some(o) = bloom::run(comp, ops) {
+        return Some(o);
+    }
+    if let Some(o) = token_cache::run(comp, ops) {
+        return Some(o);
+    }
+    if let Some(o) = congestion::run(comp, ops) {
+        return Some(o);
+    }
+    if let Some(o) = constants::run(comp, ops) {
+        return Some(o);
+    }
+    if let Some(o) = crate::connection::verif_hooks::run(comp, ops) {
+        return Some(o);
+    }
+    None
+}
